@@ -406,8 +406,15 @@ type Lane struct {
 // on the wire) mounted on the server's root; every lane is a goroutine that
 // opens its directory and calls File.Readdir(0) once per pass (the counts of
 // the passes are not used), all lanes of the client at the same moment.
+//
+// Shared (raw connections only): all lanes are users of ONE fid, opened on the
+// directory of the first lane. Every user follows the offset rule for its own
+// listing and keeps one Tread outstanding; a user's next Tread is sent as soon
+// as the reply to its previous one is in, whatever the other users have
+// outstanding (see pipe_churn_test.go). All passes of all users run in round 0.
 type ConnSpec struct {
 	Clnt     bool   `json:"clnt,omitempty"`
+	Shared   bool   `json:"shared,omitempty"`
 	CliDotu  bool   `json:"clidotu"`
 	CliMsize uint32 `json:"climsize"`
 	Lanes    []Lane `json:"lanes"`
@@ -420,12 +427,15 @@ type concLane struct {
 	expected []string
 	largest  int
 	stats    []passStats
+	ignore   func(string) bool // churn cases: names of short-lived entries
+	ch       *churn            // churn cases: the churn of the lane's directory
 }
 
 type concConn struct {
-	s     *rawSess   // raw connection
-	clnt  *go9p.Clnt // or go9p client
-	lanes []*concLane
+	s      *rawSess   // raw connection
+	clnt   *go9p.Clnt // or go9p client
+	shared bool       // raw connection whose lanes are users of one fid
+	lanes  []*concLane
 }
 
 // firstErr prefers a violation over infrastructure trouble.
@@ -472,6 +482,8 @@ func (cc *concConn) roundClnt(ci, r int) error {
 }
 
 func readdirOnce(clnt *go9p.Clnt, ln *concLane, where string) (*passStats, error) {
+	before := ln.ch.removes()
+	transient := 0
 	f, err := clnt.FOpen(ln.path, go9p.OREAD)
 	if err != nil {
 		return nil, hErr("%s: FOpen: %v", where, err)
@@ -491,6 +503,10 @@ func readdirOnce(clnt *go9p.Clnt, ln *concLane, where string) (*passStats, error
 		if d == nil {
 			return nil, viol("%s: Readdir(0) returned a nil entry", where)
 		}
+		if ln.ignore != nil && ln.ignore(d.Name) {
+			transient++
+			continue
+		}
 		if !exp[d.Name] {
 			return nil, viol("%s: Readdir(0) returned %q which os.ReadDir does not list", where, d.Name)
 		}
@@ -507,7 +523,7 @@ func readdirOnce(clnt *go9p.Clnt, ln *concLane, where string) (*passStats, error
 		}
 	}
 	if len(missing) > 0 {
-		return nil, viol("%s: Readdir(0) (msize %d, dotu=%v) returned %d of %d entries; missing: %s", where, clnt.Msize, clnt.Dotu, len(dirs), len(ln.expected), someNames(missing))
+		return nil, viol("%s: Readdir(0) (msize %d, dotu=%v) returned %d of %d entries; missing: %s", where, clnt.Msize, clnt.Dotu, len(dirs)-transient, len(ln.expected), someNames(missing))
 	}
 	more, err := f.Readdir(0)
 	if err != nil {
@@ -516,10 +532,11 @@ func readdirOnce(clnt *go9p.Clnt, ln *concLane, where string) (*passStats, error
 	if len(more) > 0 {
 		return nil, viol("%s: Readdir(0) listed all %d entries, a further Readdir(0) on the same File returned %d more, first %q", where, len(ln.expected), len(more), more[0].Name)
 	}
-	ps := &passStats{records: len(dirs), complete: true, nonEmpty: 1}
+	ps := &passStats{records: len(dirs), complete: true, nonEmpty: 1, transient: transient, churned: ln.ch.removes() != before}
 	if total > int(clnt.Msize)-ioHdr {
 		ps.nonEmpty = 2
 	}
+	ln.ch.listed()
 	return ps, nil
 }
 
@@ -547,6 +564,10 @@ func openConc(u *go9p.Ufs, cs *ConnSpec, anames []string) (*rawSess, []uint32, e
 	}
 	var fids []uint32
 	for i, ln := range cs.Lanes {
+		if cs.Shared && i > 0 {
+			fids = append(fids, fids[0])
+			continue
+		}
 		root, fid := uint32(2*i+1), uint32(2*i+2)
 		if r, err = rc.Attach(root, ref9p.NOFID, "root", anames[ln.Dir], 0); err != nil {
 			return nil, nil, err
@@ -575,6 +596,12 @@ func (cc *concConn) round(ci, r int) error {
 	if cc.clnt != nil {
 		return cc.roundClnt(ci, r)
 	}
+	if cc.shared {
+		if r == 0 {
+			return cc.runShared(ci)
+		}
+		return nil
+	}
 	type run struct {
 		ln *concLane
 		l  *lister
@@ -583,7 +610,7 @@ func (cc *concConn) round(ci, r int) error {
 	for li, ln := range cc.lanes {
 		if r < len(ln.spec.Passes) {
 			where := fmt.Sprintf("connection %d lane %d (fid %d, directory %d) pass %d", ci, li, ln.fid, ln.spec.Dir, r)
-			active = append(active, &run{ln, cc.s.newLister(ln.fid, &ln.spec.Passes[r], ln.expected, ln.largest, where)})
+			active = append(active, &run{ln, ln.newLister(cc.s, &ln.spec.Passes[r], where)})
 		}
 	}
 	rc := cc.s.rc
@@ -596,7 +623,7 @@ func (cc *concConn) round(ci, r int) error {
 				return err
 			}
 			if done {
-				a.ln.stats = append(a.ln.stats, a.l.ps)
+				a.ln.finish(a.l)
 				continue
 			}
 			tag := rc.NextTag()
@@ -622,7 +649,7 @@ func (cc *concConn) round(ci, r int) error {
 				return err
 			}
 			if done {
-				a.ln.stats = append(a.ln.stats, a.l.ps)
+				a.ln.finish(a.l)
 				finished[a] = true
 			}
 		}
@@ -697,27 +724,55 @@ func runConc(c *Case, u *go9p.Ufs, b string, res *result) error {
 		return hErr("conc case without directories or connections")
 	}
 	anames := make([]string, len(c.Dirs))
+	paths := make([]string, len(c.Dirs))
 	expected := make([][]string, len(c.Dirs))
+	order := make([][]string, len(c.Dirs))
 	ents := make([][]Ent, len(c.Dirs))
 	for i := range c.Dirs {
 		dir, err := concDir(b, &c.Dirs[i])
 		if err != nil {
 			return err
 		}
+		paths[i] = dir
 		ents[i] = c.Dirs[i].ents()
 		res.entries += len(ents[i])
 		anames[i] = filepath.Base(dir)
 		if expected[i], err = listNames(dir); err != nil {
 			return hErr("%v", err)
 		}
+		if order[i], err = rawNames(dir); err != nil {
+			return hErr("%v", err)
+		}
+	}
+	// churn cases: the records of short-lived entries count for "large enough"
+	var ignore func(string) bool
+	if c.Churn != nil {
+		ignore = isTransient
+	}
+	largestOfDir := func(k, di int, dotu bool) int {
+		l := 0
+		for _, e := range ents[di] {
+			if n := recSize(k, e, dotu); n > l {
+				l = n
+			}
+		}
+		if c.Churn != nil {
+			if n := c.Churn.largest(k, dotu); n > l {
+				l = n
+			}
+		}
+		return l
 	}
 	conns := make([]*concConn, len(c.Conns))
 	rounds := 0
 	for ci := range c.Conns {
 		cs := &c.Conns[ci]
-		for _, ln := range cs.Lanes {
+		for li, ln := range cs.Lanes {
 			if ln.Dir < 0 || ln.Dir >= len(c.Dirs) {
 				return hErr("lane names directory %d of %d", ln.Dir, len(c.Dirs))
+			}
+			if cs.Shared && ln.Dir != cs.Lanes[0].Dir {
+				return hErr("connection %d: user %d of the shared fid names another directory", ci, li)
 			}
 			if len(ln.Passes) > rounds {
 				rounds = len(ln.Passes)
@@ -736,12 +791,8 @@ func runConc(c *Case, u *go9p.Ufs, b string, res *result) error {
 			cc := &concConn{clnt: clnt}
 			for li := range cs.Lanes {
 				ln := &cs.Lanes[li]
-				cl := &concLane{spec: ln, path: "/" + anames[ln.Dir], expected: expected[ln.Dir]}
-				for _, e := range ents[ln.Dir] {
-					if n := recSize(k, e, clnt.Dotu); n > cl.largest {
-						cl.largest = n
-					}
-				}
+				cl := &concLane{spec: ln, path: "/" + anames[ln.Dir], expected: expected[ln.Dir], ignore: ignore}
+				cl.largest = largestOfDir(k, ln.Dir, clnt.Dotu)
 				if int(clnt.Msize)-ioHdr < cl.largest {
 					return hErr("client msize-24=%d is smaller than the largest entry (%d)", clnt.Msize-ioHdr, cl.largest)
 				}
@@ -762,20 +813,38 @@ func runConc(c *Case, u *go9p.Ufs, b string, res *result) error {
 		if err != nil {
 			return err
 		}
-		cc := &concConn{s: s}
+		cc := &concConn{s: s, shared: cs.Shared}
 		for li := range cs.Lanes {
 			ln := &cs.Lanes[li]
-			cl := &concLane{spec: ln, fid: fids[li], expected: expected[ln.Dir]}
-			for _, e := range ents[ln.Dir] {
-				if n := recSize(k, e, s.dotu); n > cl.largest {
-					cl.largest = n
-				}
-			}
+			cl := &concLane{spec: ln, fid: fids[li], expected: expected[ln.Dir], ignore: ignore}
+			cl.largest = largestOfDir(k, ln.Dir, s.dotu)
 			cc.lanes = append(cc.lanes, cl)
 		}
 		conns[ci] = cc
 		if ci == 0 {
 			res.dotu, res.msize = s.dotu, s.msize
+		}
+	}
+	// churn cases: other parties create and remove short-lived entries in every
+	// directory from now until the last listing is over
+	var churns []*churn
+	if c.Churn != nil {
+		for i := range c.Dirs {
+			ch, err := startChurn(u, c.Churn, i, paths[i], anames[i], expected[i])
+			if ch != nil {
+				churns = append(churns, ch)
+			}
+			if err != nil {
+				for _, ch := range churns {
+					_ = ch.stop()
+				}
+				return err
+			}
+		}
+		for _, cc := range conns {
+			for _, ln := range cc.lanes {
+				ln.ch = churns[ln.spec.Dir]
+			}
 		}
 	}
 	// every round starts on all connections at the same moment (the barrier
@@ -800,13 +869,49 @@ func runConc(c *Case, u *go9p.Ufs, b string, res *result) error {
 		}(ci)
 	}
 	wg.Wait()
+	var infra error
+	for _, ch := range churns {
+		if err := ch.stop(); err != nil && infra == nil {
+			infra = err
+		}
+		res.churnOps += ch.removes()
+	}
+	for i := range churns {
+		if now, err := listNames(paths[i]); err != nil || !sameNames(now, expected[i]) {
+			// the cached directory is not what it was: do not use it again
+			concMu.Lock()
+			for k, p := range concDirs {
+				if p == paths[i] {
+					delete(concDirs, k)
+				}
+			}
+			concMu.Unlock()
+			if infra == nil {
+				infra = hErr("directory %d does not hold its permanent entries after the churn: %v", i, err)
+			}
+		}
+	}
 	multi := make([]int, rounds) // per round: lanes that completed a listing of several reads
 	for _, cc := range conns {
 		for _, ln := range cc.lanes {
 			for r, ps := range ln.stats {
 				res.passes = append(res.passes, ps)
-				if ps.complete && ps.nonEmpty >= 2 && r < rounds {
-					multi[r]++
+				if !ps.complete || ps.nonEmpty < 2 {
+					continue
+				}
+				switch c.Kind {
+				case "pipe":
+					if ps.overlap > 0 {
+						res.nontrivial = true
+					}
+				case "churn":
+					if ps.churned {
+						res.nontrivial = true
+					}
+				default:
+					if r < rounds {
+						multi[r]++
+					}
 				}
 			}
 		}
@@ -816,7 +921,45 @@ func runConc(c *Case, u *go9p.Ufs, b string, res *result) error {
 			res.nontrivial = true
 		}
 	}
-	return firstErr(errs)
+	if infra != nil {
+		// the premise of the verdicts (what the other party did, what the OS
+		// lists) is not established
+		return infra
+	}
+	err := firstErr(errs)
+	if _, ok := err.(*violation); ok && c.Churn == nil {
+		// premise of "each entry exactly once" for users of one fid and of the
+		// offsets a user holds: the OS lists an unchanged directory in the same
+		// order every time
+		for i := range c.Dirs {
+			if now, e := rawNames(paths[i]); e != nil || !sameNames(now, order[i]) {
+				return hErr("the OS lists the unchanged directory %d in another order than before (%v); not judged: %v", i, e, err)
+			}
+		}
+	}
+	return err
+}
+
+// rawNames: the names of a directory in the order the OS lists them.
+func rawNames(dir string) ([]string, error) {
+	f, err := os.Open(dir)
+	if err != nil {
+		return nil, err
+	}
+	defer f.Close()
+	return f.Readdirnames(-1)
+}
+
+func sameNames(a, b []string) bool {
+	if len(a) != len(b) {
+		return false
+	}
+	for i := range a {
+		if a[i] != b[i] {
+			return false
+		}
+	}
+	return true
 }
 
 // accountConc is account for "conc" cases.
@@ -825,7 +968,7 @@ func accountConc(test string, c *Case, res result) {
 	lanes, two := 0, 0
 	for _, cs := range c.Conns {
 		lanes += len(cs.Lanes)
-		if len(cs.Lanes) > 1 {
+		if len(cs.Lanes) > 1 && !cs.Shared {
 			two++
 		}
 	}
@@ -841,14 +984,61 @@ func accountConc(test string, c *Case, res result) {
 			break
 		}
 	}
+	overlap, transient, churned := 0, 0, 0
+	for _, ps := range res.passes {
+		overlap += ps.overlap
+		transient += ps.transient
+		if ps.churned && ps.complete {
+			churned++
+		}
+	}
+	for _, cs := range c.Conns {
+		if cs.Shared {
+			hx.Label(fmt.Sprintf("%s users of one fid=%d", test, len(cs.Lanes)))
+		}
+	}
+	if c.Kind == "pipe" {
+		if overlap > 0 {
+			hx.Label(test + " Tread at offset>0 outstanding together with a Tread at offset 0 of the same fid")
+		}
+		hx.ExtraAdd("pipe_overlapping_treads", int64(overlap))
+	}
+	if ch := c.Churn; ch != nil {
+		hx.Label(fmt.Sprintf("%s churn by %s", test, ch.Kind))
+		hx.Label(fmt.Sprintf("%s churn live=%d", test, ch.Live))
+		for _, d := range c.Dirs {
+			if d.Bulk != nil {
+				switch n := d.Bulk.N; {
+				case n > 2048:
+					hx.Label(test + " permanent entries >2048")
+				case n > 1024:
+					hx.Label(test + " permanent entries >1024")
+				case n > 512:
+					hx.Label(test + " permanent entries >512")
+				}
+			}
+		}
+		if transient > 0 {
+			hx.Label(test + " short-lived entries seen in listings")
+		}
+		if churned > 0 {
+			hx.Label(test + " listing completed while entries were removed")
+		}
+		hx.ExtraAdd("churn_removes", res.churnOps)
+		hx.ExtraAdd("churn_listings_under_churn", int64(churned))
+		hx.ExtraAdd("churn_transient_records", int64(transient))
+	}
 	if res.nontrivial {
 		var seq []interface{}
 		seq = append(seq, c.Kind, c.SrvDotu, c.SrvMsize)
 		for _, d := range c.Dirs {
 			seq = append(seq, fmt.Sprint(len(d.Ents), d.Bulk))
 		}
+		if c.Churn != nil {
+			seq = append(seq, fmt.Sprint(*c.Churn))
+		}
 		for _, cs := range c.Conns {
-			seq = append(seq, cs.Clnt, cs.CliDotu, cs.CliMsize)
+			seq = append(seq, cs.Clnt, cs.Shared, cs.CliDotu, cs.CliMsize)
 			for _, ln := range cs.Lanes {
 				seq = append(seq, ln.Dir)
 				for _, p := range ln.Passes {
